@@ -25,6 +25,12 @@ def c05MsgOfJson (j : Json) : Except String MsgDef := do
         ← (← getArrL j "fields").mapM c05FieldOfJson⟩
 
 open Model.Flatten in
+/-- a message with the package of its declaring file (`"pkg"`), for the derived mode of `c05.mapping` -/
+def c05PMsgOfJson (j : Json) : Except String PMsg := do
+  pure ⟨← (← j.getObjVal? "pkg").getStr?, ← (← j.getObjVal? "full").getStr?,
+        ← (← getArrL j "fields").mapM c05FieldOfJson⟩
+
+open Model.Flatten in
 def c05ValToJson : Val → Json
   | .atom s => Json.mkObj [("a", Json.str s)]
   | .list xs => Json.mkObj [("l", jarr (xs.map Json.str))]
@@ -70,11 +76,23 @@ def c05EmitJson : Except EmitErr Unit → Json
   | .error (.keywordAttr k) => jarr [Json.str "keyword-attr", Json.str k]
 
 open Model.Flatten in
-/-- `{"op":"c05.mapping","schema":[msg…],"input":full,"cross_pkg":bool,"sigs":[str…]}` -/
+/-- `{"op":"c05.mapping","schema":[msg…],"input":full,"cross_pkg":bool,"sigs":[str…]}` — or, DERIVED mode
+(`"api_package"` present): every message carries `"pkg"`, the op `"service_package"` and `"proto_plus_deps"`;
+`proto_plus` of every message and `cross_pkg` are then computed by `isProtoPlusType` / `crossPkgOf`. -/
 def opC05Mapping (j : Json) : Except String Json := do
-  let sch ← (← getArrL j "schema").mapM c05MsgOfJson
   let inputName ← (← j.getObjVal? "input").getStr?
-  let cross ← (← j.getObjVal? "cross_pkg").getBool?
+  let derived := (j.getObjVal? "api_package").toOption
+  let (sch, cross) ← (match derived with
+    | some ap => do
+      let deps ← (← getArrL j "proto_plus_deps").mapM fun s => s.getStr?
+      let n : Naming := ⟨← ap.getStr?, deps⟩
+      let svcPkg ← (← j.getObjVal? "service_package").getStr?
+      let ps ← (← getArrL j "schema").mapM c05PMsgOfJson
+      let inPkg := match ps.find? (·.full == inputName) with | some m => m.pkg | none => ""
+      pure (ps.map (PMsg.toMsgDef n), crossPkgOf inPkg svcPkg)
+    | none => do
+      let sch ← (← getArrL j "schema").mapM c05MsgOfJson
+      pure (sch, ← (← j.getObjVal? "cross_pkg").getBool?) : Except String (Schema × Bool))
   let sigs ← (← getArrL j "sigs").mapM fun s => s.getStr?
   let cstream : Bool := match j.getObjVal? "client_streaming" with | .ok (Json.bool b) => b | _ => false
   match findMsg sch inputName with
@@ -85,6 +103,8 @@ def opC05Mapping (j : Json) : Except String Json := do
     | .ok es =>
       pure (Json.mkObj [
         ("paths", jarr ((sigs.flatMap parseSig).map fun p => jarr (p.map Json.str))),
+        ("cross_pkg", Json.bool cross),
+        ("input_proto_plus", Json.bool input.protoPlus),
         ("keys", jarr (es.map fun e => Json.str e.key)),
         ("params", jarr (es.map fun e => Json.str e.param)),
         ("param_list", jarr ((paramListOf cstream es).map Json.str)),
@@ -96,6 +116,7 @@ def opC05Mapping (j : Json) : Except String Json := do
             ("path", jarr (s.path.map jnat)), ("repeated", Json.bool s.repeated), ("map", Json.bool s.isMap),
             ("value", Json.bool s.isValue), ("ctor", optJson jnat s.ctor),
             ("raw_owner", Json.bool s.rawOwner), ("is_msg", Json.bool s.isMsg),
+            ("marshal_owner", Json.bool s.marshalOwner),
             ("key_segs", jarr (e.keySegs.map Json.str)),
             ("attrs_resolve", Json.bool (resolveAttrs sch input e.keySegs == some (e.links.map (·.field))))]))])
 
@@ -106,7 +127,7 @@ def c05SlotOfJson (j : Json) : Except String Slot := do
   let ctor ← if ctorJ.isNull then pure none else do pure (some (← ctorJ.getNat?))
   let optB (k : String) : Bool := match j.getObjVal? k with | .ok (Json.bool b) => b | _ => false
   pure ⟨path, ← (← j.getObjVal? "repeated").getBool?, ← (← j.getObjVal? "map").getBool?,
-        ← (← j.getObjVal? "value").getBool?, ctor, optB "raw_owner", optB "is_msg"⟩
+        ← (← j.getObjVal? "value").getBool?, ctor, optB "raw_owner", optB "is_msg", optB "marshal_owner"⟩
 
 open Model.Flatten in
 def c05CallJson : Except CallErr Val → Json
@@ -137,6 +158,19 @@ def opC05Call (j : Json) : Except String Json := do
     ("sent_async", jnat (sent same true req bs).length),
     ("ref", c05ValToJson (setAll bs .mnil))])
 
-def opsC05 : List (String × (Json → Except String Json)) := [("c05.mapping", opC05Mapping), ("c05.call", opC05Call)]
+open Model.Flatten in
+/-- `{"op":"c05.packages","api_package":str,"proto_plus_deps":[str…],"service_package":str,"pkgs":[str…]}` →
+per package: `is_proto_plus_type` of an address in it, and whether a request declared there is a cross-package
+request of a service declared in `service_package`. -/
+def opC05Packages (j : Json) : Except String Json := do
+  let deps ← (← getArrL j "proto_plus_deps").mapM fun s => s.getStr?
+  let n : Naming := ⟨← (← j.getObjVal? "api_package").getStr?, deps⟩
+  let svcPkg ← (← j.getObjVal? "service_package").getStr?
+  let pkgs ← (← getArrL j "pkgs").mapM fun s => s.getStr?
+  pure (jarr (pkgs.map fun p =>
+    Json.mkObj [("proto_plus", Json.bool (isProtoPlusType n p)), ("cross", Json.bool (crossPkgOf p svcPkg))]))
+
+def opsC05 : List (String × (Json → Except String Json)) :=
+  [("c05.mapping", opC05Mapping), ("c05.call", opC05Call), ("c05.packages", opC05Packages)]
 
 end GapicModel.Driver
